@@ -55,19 +55,19 @@ Qed.
 (* ---------- misuse is an error ---------- *)
 
 (* MethodCall: a call with the wrong number of arguments is an error *)
-Lemma wrong_arity_is_error : forall p m args ar,
+Lemma wrong_arity_is_error : forall p m args ar, is_pseudo m = false ->
   lookup_arity (tid_of p) m = Some ar -> 0 <= ar -> ar <> Z.of_nat (length args) ->
   run_step p m args = Err None.
 Proof.
-  intros p m args ar H H0 Hne. unfold run_step. rewrite H.
+  intros p m args ar Hp H H0 Hne. unfold run_step. rewrite Hp, H.
   replace ((0 <=? ar) && negb (ar =? Z.of_nat (length args))) with true by lia. reflexivity.
 Qed.
 
 (* a method that does not exist for the receiver's type is an error *)
-Lemma unknown_method_is_error : forall p m args,
+Lemma unknown_method_is_error : forall p m args, is_pseudo m = false ->
   lookup_arity (tid_of p) m = None -> is_unmodelled (tid_of p) m = false ->
   run_step p m args = Err None.
-Proof. intros p m args H1 H2. unfold run_step. rewrite H1, H2. reflexivity. Qed.
+Proof. intros p m args Hp H1 H2. unfold run_step. rewrite Hp, H1, H2. reflexivity. Qed.
 
 Definition cb1_methods : list meth :=
   [M_accept; M_map; M_minMax; M_indexWhere; M_present; M_groupByEqual; M_groupByInt; M_groupByString;
